@@ -2007,7 +2007,7 @@ def translate_all():
             out.append("-- %s `%s` (%s): %s\n-- no definition of `%s` is generated; its equivalence theorem cannot compile\n" % (
                 e["file"], e["func"], rec["source_hash"], rec["status"], lean_name))
         # plain functions are callable by name, methods as Class.method; partial translations are not callable
-        done[e["func"] if "loop_body" not in e and "after" not in e else "\0" + lean_name] = info
+        done[e.get("done_key") or (e["func"] if "loop_body" not in e and "after" not in e else "\0" + lean_name)] = info
         manifest[key] = rec
     texts = {}
     for u, (fname, imports) in UNITS.items():
